@@ -45,8 +45,9 @@ def _load_registry():
             continue
         file = name[:-3]
         module, sizes, group, pending = None, {}, None, None
-        mj = re.search(r"^//\s*@jobs\s+(\d+)", text, re.M)
+        mj = re.search(r"^//\s*@jobs\s+(\d+)(?:\s+thorough=(\d+))?", text, re.M)
         file_jobs = int(mj.group(1)) if mj else 16
+        file_jobs_thorough = int(mj.group(2)) if mj and mj.group(2) else file_jobs
         lines = text.splitlines()
         for i, line in enumerate(lines):
             s = line.strip()
@@ -85,10 +86,10 @@ def _load_registry():
                         if pending["tier"] == "thorough":      # per-harness override: too expensive for the quick tier at any size
                             tier = "thorough"
                         out.append(Harness(file, module, group, size, fn, pending["props"], tier, pending["spin"], asserts))
-                        out[-1].jobs = file_jobs
+                        out[-1].jobs = file_jobs if tier == "quick" else file_jobs_thorough
                 else:
                     out.append(Harness(file, module, None, None, fn, pending["props"], pending["tier"], pending["spin"], asserts))
-                    out[-1].jobs = file_jobs
+                    out[-1].jobs = file_jobs if pending["tier"] == "quick" else file_jobs_thorough
                 pending = None
     return out
 
